@@ -178,17 +178,21 @@ def x_price(s):
     return s.m.market_status.data.price
 
 
+SPACING = {0.01: 1, 0.05: 10, 0.3: 60, 1: 200}
+
+
 def _range(p):
-    """position range in A-orientation ticks (tick spacing 10)"""
-    base = p["tick"] - p["tick"] % 10
+    """position range in A-orientation ticks: multiples of the fee tier's tick spacing (10 for the 0.05 % tier)"""
+    u = SPACING[p.get("fee", 0.05)]
+    base = p["tick"] - p["tick"] % u
     return {
-        "below": (base + 300, base + 600),  # the pool tick is below the range
-        "above": (base - 600, base - 300),
-        "edge_low": (base, base + 300),
-        "edge_high": (base - 300, base),
-        "inside": (base - 300, base + 300),
-        "off_centre": (base - 100, base + 500),
-        "wide": (base - 4000, base + 4000),
+        "below": (base + 30 * u, base + 60 * u),  # the pool tick is below the range
+        "above": (base - 60 * u, base - 30 * u),
+        "edge_low": (base, base + 30 * u),
+        "edge_high": (base - 30 * u, base),
+        "inside": (base - 30 * u, base + 30 * u),
+        "off_centre": (base - 10 * u, base + 50 * u),
+        "wide": (base - 400 * u, base + 400 * u),
     }[p["range"]]
 
 
@@ -271,6 +275,18 @@ def op_scenario(ctx):
     if op == "add_by_price":
         # add_liquidity takes quote prices: the same two prices on both sides
         pl, ph = a.m.tick_to_price(hi), a.m.tick_to_price(lo)  # A: higher tick = lower price
+        if p.get("mid_tick"):
+            # prices strictly inside a tick, half a spacing (less one tick) above a usable tick: the tick such a price floors to and
+            # the tick its mirror floors to lie on either side of the rounding tie between two usable ticks
+            from demeter.uniswap.helper import tick_to_base_unit_price
+
+            u = SPACING[p.get("fee", 0.05)]
+
+            def mid(t):
+                return (tick_to_base_unit_price(t, a.Q.decimal, a.B.decimal, True) * tick_to_base_unit_price(t + 1, a.Q.decimal, a.B.decimal, True)).sqrt()
+
+            off = u // 2 - 1 + p.get("mid_off", 0)
+            pl, ph = mid(hi + off), mid(lo + off)
         base_amt = _wei_amount(ctx, "add_base_wei", a.B.decimal, -3, 4)
         quote_amt = _wei_amount(ctx, "add_quote_wei", a.Q.decimal, -3, 7)
         ctx.assume(sand(wb >= 2 * base_amt, wq >= 2 * quote_amt))
@@ -438,6 +454,10 @@ def scenarios(tier):
                         if tier == "quick" and (mv == 900 or ((dq, db) != (6, 18) and rg != "inside")):
                             continue
                         out.append(Scenario(f"fee_bar{mv:+d}/{rg}/{tag}", op_scenario, params=dict(base, op="fee_bar", range=rg, move=mv, deposit=DEPOSITS[(len(out)) % len(DEPOSITS)] if tier != "quick" else DEPOSITS[0]), entry=("UniLpMarket.update", "V3CoreLib.update_fee", "UniLpMarket.collect_fee", "get_position_status", "get_market_balance"), **dict(kw, nlsat=True, relax_inputs=True)))
+                # range given by PRICES strictly inside a tick next to the rounding tie between two usable ticks (both parities of the tie)
+                for rg in ("inside", "below"):
+                    for off in (0, SPACING[fee]):
+                        out.append(Scenario(f"add_by_price/{rg}/prices_inside_a_tick_next_to_the_snapping_tie+{off}/{tag}", op_scenario, params=dict(base, op="add_by_price", range=rg, mid_tick=True, mid_off=off), entry=("UniLpMarket.add_liquidity", "V3CoreLib.quote_price_pair_to_tick", "nearest_usable_tick"), **kw))
                 # price strictly inside the tick that is a range bound (pool tick 200010 = lower bound of edge_low = upper bound of edge_high)
                 if t == ticks[0] and fee == fees[0] and (dq, db) == (6, 18):
                     for rg in ("edge_low", "edge_high"):
